@@ -999,7 +999,7 @@ def main():
         rng = run.rng("scenarios")
         scenarios = quick_scenarios(rng)
         if run.tier == "thorough":
-            nrand = run.size(0, 250)
+            nrand = run.size(0, 200)
             scenarios += [random_scenario(run.rng("rand", i), i) for i in range(nrand)]
         stats, distinct, samples, base_samples = run_all(run, scenarios)
         cov = {"evaluations": stats["evaluations"], "distinct_nontrivial": len(distinct), "rule": RULE,
